@@ -155,11 +155,12 @@ pub struct P {
   pub ctr: usize,
 }
 
-/// predicate family over items: 0: v > th, 1: v == th, 2: v mod 2 == 0
+/// predicate family over items: 0: v > th, 1: v == th, 2: v mod 2 == 0, 3: v < th
 pub fn pred(pk: u32, th: &Val, v: &Val) -> bool {
   match pk {
     0 => th.sym().is_lt(v.sym()),
     1 => v.sym().is_eq(th.sym()),
+    3 => v.sym().is_lt(th.sym()),
     _ => v.sym().modc(2).is_eq(Sym::c(0)),
   }
 }
@@ -635,4 +636,92 @@ pub fn compare_events(got: &[Ev], want: &[Ev]) -> Result<u32, String> {
     }
   }
   Ok(t)
+}
+
+// ---------------------------------------------------------------- oracle self-test against /repo's own test expectations
+
+/// The reference interpreters are validated independently of the implementation: the inputs and
+/// expected outputs of /repo's unit tests and doc examples (hand-extracted; the test is named in
+/// each case) are pushed through `sem`. A disagreement means the *oracle* is wrong.
+pub fn selftest() -> Vec<String> {
+  fn ints(v: &[i64]) -> Vec<Val> {
+    v.iter().map(|x| Val::c(*x)).collect()
+  }
+  fn range(a: i64, b: i64) -> Vec<Val> {
+    (a..b).map(Val::c).collect()
+  }
+  fn p(n: usize, th: i64, pk: u32) -> P {
+    P { n, th: Val::c(th), pk, vs: vec![], ctr: 0 }
+  }
+  let done = |items: Vec<Val>| Script { items, term: Tm::Complete };
+  let mut cases: Vec<(&str, Op, P, Script, Script)> = vec![
+    ("take::base_function", Op::Take, p(5, 0, 0), done(range(0, 100)), done(range(0, 5))),
+    ("skip::base_function", Op::Skip, p(5, 0, 0), done(range(0, 100)), done(range(5, 100))),
+    ("take_while::base_function", Op::TakeWhile, p(0, 5, 3), done(range(0, 100)), done(range(0, 5))),
+    ("take_while::inclusive_case", Op::TakeWhileInclusive, p(0, 5, 3), done(range(0, 100)), done(range(0, 6))),
+    ("skip_while::base_function", Op::SkipWhile, p(0, 95, 3), done(range(0, 100)), done(range(95, 100))),
+    ("take_last::base_function", Op::TakeLast, p(5, 0, 0), done(range(0, 100)), done(range(95, 100))),
+    ("skip_last::base_function", Op::SkipLast, p(5, 0, 0), done(range(0, 10)), done(range(0, 5))),
+    ("skip_last::base_empty_function", Op::SkipLast, p(11, 0, 0), done(range(0, 10)), done(vec![])),
+    ("distinct::distinct_until_changed", Op::DistinctUntilChanged, p(0, 0, 0), done(ints(&[1, 2, 2, 1, 2, 3])), done(ints(&[1, 2, 1, 2, 3]))),
+    ("distinct::smoke (after map v%5)", Op::Distinct, p(0, 0, 0), done((0..20).map(|v| Val::c(v % 5)).collect()), done(range(0, 5))),
+    ("scan::scan_initial", Op::ScanInitial, p(0, 100, 0), done(ints(&[1, 1, 1, 1, 1])), done(ints(&[101, 102, 103, 104, 105]))),
+    ("scan::scan_initial_on_empty_observable", Op::ScanInitial, p(0, 100, 0), done(vec![]), done(vec![])),
+    ("scan::scan_with_default", Op::Scan, p(0, 0, 0), done(ints(&[1, 1, 1, 1, 1])), done(ints(&[1, 2, 3, 4, 5]))),
+    ("default_if_empty::base_function", Op::DefaultIfEmpty, p(0, 5, 0), done(ints(&[10])), done(ints(&[10]))),
+    ("default_if_empty::base_empty_function", Op::DefaultIfEmpty, p(0, 5, 0), done(vec![]), done(ints(&[5]))),
+    ("contains::contains_smoke (4)", Op::Contains, p(0, 4, 0), done(range(0, 10)), done(vec![Val::B(true)])),
+    ("contains::contains_smoke (99)", Op::Contains, p(0, 99, 0), done(range(0, 10)), done(vec![Val::B(false)])),
+    ("contains::contains_smoke (empty)", Op::Contains, p(0, 1, 0), done(vec![]), done(vec![Val::B(false)])),
+    ("last::last_or_hundered_items", Op::LastOr, p(0, 200, 0), done(range(0, 100)), done(ints(&[99]))),
+    ("last::last_or_no_items", Op::LastOr, p(0, 100, 0), done(vec![]), done(ints(&[100]))),
+    ("last::last_one_item", Op::Last, p(0, 0, 0), done(range(0, 2)), done(ints(&[1]))),
+    ("last::last_no_items", Op::Last, p(0, 0, 0), done(vec![]), done(vec![])),
+    ("observable::first", Op::First, p(0, 0, 0), done(range(0, 2)), done(ints(&[0]))),
+    ("observable::first_or (empty)", Op::FirstOr, p(0, 100, 0), done(vec![]), done(ints(&[100]))),
+    ("observable::smoke_element_at", Op::ElementAt, p(2, 0, 0), done(range(0, 20)), done(ints(&[2]))),
+    ("observable::smoke_ignore_elements", Op::IgnoreElements, p(0, 0, 0), done(range(0, 20)), done(vec![])),
+    ("ops::reduce_initial", Op::ReduceInitial, p(0, 100, 0), done(ints(&[1, 1, 1, 1, 1])), done(ints(&[105]))),
+    ("ops::reduce_initial_on_empty_observable", Op::ReduceInitial, p(0, 100, 0), done(vec![]), done(ints(&[100]))),
+    ("ops::reduce", Op::Reduce, p(0, 0, 0), done(ints(&[1, 1, 1, 1, 1])), done(ints(&[5]))),
+    ("ops::reduce_on_empty_observable", Op::Reduce, p(0, 0, 0), done(vec![]), done(ints(&[0]))),
+    ("ops::count", Op::Count, p(0, 0, 0), done(ints(&[7, 8, 9])), done(ints(&[3]))),
+    ("ops::count_on_empty_observable", Op::Count, p(0, 0, 0), done(vec![]), done(ints(&[0]))),
+    ("ops::sum", Op::Sum, p(0, 0, 0), done(ints(&[1, 1, 1, 1, 1])), done(ints(&[5]))),
+    ("ops::sum_on_empty_observable", Op::Sum, p(0, 0, 0), done(vec![]), done(ints(&[0]))),
+    ("ops::max_of_floats (integers)", Op::Max, p(0, 0, 0), done(ints(&[3, 4, 7, 5, 6])), done(ints(&[7]))),
+    ("ops::min_of_floats (integers)", Op::Min, p(0, 0, 0), done(ints(&[3, 4, 7, 5, 6])), done(ints(&[3]))),
+    ("ops::max_on_empty_observable", Op::Max, p(0, 0, 0), done(vec![]), done(vec![])),
+    ("ops::average_of_floats (integers)", Op::Average, p(0, 0, 0), done(ints(&[3, 4, 5, 6, 7])), done(ints(&[5]))),
+    ("ops::average_on_empty_observable", Op::Average, p(0, 0, 0), done(vec![]), done(vec![])),
+    ("buffer::it_shall_buffer_with_count", Op::BufferWithCount, p(2, 0, 0), done(range(0, 6)), done(vec![Val::L(range(0, 2)), Val::L(range(2, 4)), Val::L(range(4, 6))])),
+    ("buffer::it_shall_emit_buffer_on_completed", Op::BufferWithCount, p(2, 0, 0), done(range(0, 5)), done(vec![Val::L(range(0, 2)), Val::L(range(2, 4)), Val::L(range(4, 5))])),
+    ("collect::collect_test", Op::Collect, p(0, 0, 0), done(ints(&[1, 2, 3])), done(vec![Val::L(ints(&[1, 2, 3]))])),
+    ("collect::collect_empty_test", Op::Collect, p(0, 0, 0), done(vec![]), done(vec![Val::L(vec![])])),
+    ("observable::smoke_all (false)", Op::All, p(0, 5, 3), done(range(0, 10)), done(vec![Val::B(false)])),
+    ("observable::smoke_all (true)", Op::All, p(0, 5, 3), done(range(0, 5)), done(vec![Val::B(true)])),
+  ];
+  // errors: an input error is the only terminal, no aggregate accompanies it (buffer::it_shall_discard_buffer_on_error, collect_with_err_test)
+  let err = |items: Vec<Val>| Script { items, term: Tm::Error(Val::c(-1)) };
+  cases.push(("buffer::it_shall_discard_buffer_on_error", Op::BufferWithCount, p(3, 0, 0), err(range(0, 2)), err(vec![])));
+  cases.push(("collect::collect_with_err_test", Op::Collect, p(0, 0, 0), err(range(0, 2)), err(vec![])));
+  let mut sw = p(0, 0, 0);
+  sw.vs = ints(&[-1, 0]);
+  cases.push(("start_with::simple_integer", Op::StartWith, sw, done(ints(&[1, 2, 3])), done(ints(&[-1, 0, 1, 2, 3]))));
+  let mut bad = vec![];
+  for (name, op, p, input, want) in cases {
+    let got = sem(op, &p, &input, false);
+    let same = got.items.len() == want.items.len()
+      && got.items.iter().zip(want.items.iter()).all(|(a, b)| a.eq_t(b) == crate::val::tt())
+      && std::mem::discriminant(&got.term) == std::mem::discriminant(&want.term);
+    if !same {
+      bad.push(format!("{}: oracle gives [{}] but /repo's test expects [{}]", name, got.show(), want.show()));
+    }
+  }
+  // pairwise::smoke
+  let got = sem(Op::Pairwise, &p(0, 0, 0), &done(range(0, 10)), false);
+  if got.items.len() != 9 || got.items[0].eq_t(&Val::pair(Val::c(0), Val::c(1))) != crate::val::tt() {
+    bad.push("pairwise::smoke: oracle disagrees".to_string());
+  }
+  bad
 }
